@@ -10,6 +10,7 @@ CONSTANTS
   CodeDen = {}
   Dims = 1
   Kinds <- KindsAll
+  HalfLimits = FALSE
   Uneven = "same"
 VIEW View
 INVARIANTS TypeOKT PartsOKT PartitionT CompleteT DevOKT NoNonPosDrawn
